@@ -84,7 +84,7 @@ def main():
         finish()
 
     # ---- 2. proofs
-    module = "AJ.Props." + prop
+    module = P.get("module", "AJ.Props." + prop)
     theorems = P["theorems"]
     okp, outp = ajlib.lake_build([module])
     proof_broken = []
